@@ -2508,6 +2508,9 @@ class PyCdlib:
         Returns:
          Nothing.
         """
+        if blocksize < 1:
+            raise pycdlibexception.PyCdlibInvalidInput('The blocksize must be at least 1')
+
         if self.joliet_vd is not None:
             try:
                 self._get_file_from_iso_fp(outfp, blocksize, None, None,
@@ -2549,6 +2552,9 @@ class PyCdlib:
         Returns:
          Nothing.
         """
+        if blocksize < 1:
+            raise pycdlibexception.PyCdlibInvalidInput('The blocksize must be at least 1')
+
         if self.udf_root is None:
             raise pycdlibexception.PyCdlibInvalidInput('Cannot fetch a udf_path from a non-UDF ISO')
 
@@ -2585,6 +2591,9 @@ class PyCdlib:
         Returns:
          Nothing.
         """
+        if blocksize < 1:
+            raise pycdlibexception.PyCdlibInvalidInput('The blocksize must be at least 1')
+
         if joliet_path is not None:
             if self.joliet_vd is None:
                 raise pycdlibexception.PyCdlibInvalidInput('Cannot fetch a joliet_path from a non-Joliet ISO')
@@ -2911,6 +2920,9 @@ class PyCdlib:
         Returns:
          Nothing.
         """
+        if blocksize < 1:
+            raise pycdlibexception.PyCdlibInvalidInput('The blocksize must be at least 1')
+
         if hasattr(outfp, 'mode') and 'b' not in outfp.mode:
             raise pycdlibexception.PyCdlibInvalidInput("The file to write out must be in binary mode (add 'b' to the open flags)")
 
